@@ -469,6 +469,13 @@ func sendfsmOutgoingMsg(peer *peer, paths []*table.Path) {
 }
 
 func isASLoop(peer *peer, path *table.Path) bool {
+	// With replace-peer-as every occurrence of the peer's AS is rewritten on
+	// the way out, so the peer never finds itself in the AS_PATH. Routes are
+	// rewritten before they get here; withdrawals (of the path itself, or of
+	// the previously advertised one) are not, and must not be swallowed.
+	if peer.fsm.pConf.ReadOnly().AsPathOptions.State.ReplacePeerAs {
+		return false
+	}
 	return slices.Contains(path.GetAsList(), peer.AS())
 }
 
